@@ -33,10 +33,17 @@ Definition judge (c : case) : verdict :=
      | _ => true end, v_violation 4);                               (* unset: 404 for every non-shell path (the mux's own 301-to-the-cleaned-path and the
                                                                        parser's 400 carry no content and are accepted) *)
     (match mode c with
-     | FSingle => is_shell_segs (segs c) || negb (status c =? 200) || single_tag c
-     | _ => true end, v_violation 5);                               (* single file: exactly that file *)
+     | FSingle => is_shell_segs (segs c) ||
+                  (if mux_redirects (epath c) then negb (status c =? 200) || single_tag c
+                   else (status c =? 200) && single_tag c)
+     | _ => true end, v_violation 5);                               (* single file: exactly that file, for EVERY non-shell path that reaches
+                                                                       the handlers (the mux's own 301 for a non-canonical path excepted) *)
     (match served c with Some _ => noticed c | None => negb (single_tag c) || noticed c end, v_violation 6)
                                                                     (* every file request is reported *)
+    ;(match mode c with
+     | FDir => true
+     | _ => is_shell_segs (segs c) || Bool.eqb (status c =? 301) (mux_redirects (epath c))
+     end, v_mismatch 21)                                            (* correspondence of the mux model *)
   ].
 Definition judge_all (cs : list case) : list (N * N * N) := judge_list judge cs.
 
